@@ -109,7 +109,11 @@ func (f *formatter) formatStmts(list *[]ast.Vertex) {
 		f.lastSemiColon = nil
 
 		if _, ok := stmt.(*ast.StmtInlineHtml); ok {
-			if f.lastSemiColon != nil {
+			if f.state == FormatterStateHTML {
+				// HTML at the very start of the file: no PHP block is open,
+				// so there is nothing to close and nothing to put before it
+				f.resetFreeFloating()
+			} else if f.lastSemiColon != nil {
 				f.lastSemiColon.Value = append(f.lastSemiColon.Value, '?', '>')
 			} else {
 				*list = insert(*list, i+insertCounter, &ast.StmtNop{
@@ -672,7 +676,14 @@ func (f *formatter) StmtIf(n *ast.StmtIf) {
 }
 
 func (f *formatter) StmtInlineHtml(n *ast.StmtInlineHtml) {
-	n.InlineHtmlTkn = f.newToken(token.T_STRING, n.Value)
+	if f.state == FormatterStateHTML {
+		n.InlineHtmlTkn = &token.Token{
+			ID:    token.T_INLINE_HTML,
+			Value: n.Value,
+		}
+	} else {
+		n.InlineHtmlTkn = f.newToken(token.T_STRING, n.Value)
+	}
 	f.state = FormatterStateHTML
 }
 
